@@ -40,6 +40,9 @@ class Prop:
         if form == "group_by_until":
             sc["pool"] = [ctx.new_source("cold", prefix="p", maxn=1, positive_first=True) for _ in range(2)]
         sc["sources"] = ctx.sources
+        off = rng.choice([None, None, None, 37, 123, 411])
+        if off and not part:
+            sc["sub2_t"] = 205 + off
         return sc
 
     def build(self, w, sc):
